@@ -114,6 +114,22 @@ impl<'tree, D: Doc> MetaVarEnv<'tree, D> {
     var_matchers: &HashMap<MetaVariableID, M>,
   ) -> bool {
     let mut env = Cow::Borrowed(self);
+    #[cfg(feature = "verif-hooks")]
+    if var_matchers.len() > 1 {
+      let keys: Vec<&str> = self
+        .single_matched
+        .keys()
+        .filter(|k| var_matchers.contains_key(*k))
+        .map(|k| k.as_str())
+        .collect();
+      crate::verif::emit(
+        "order",
+        &[
+          ("site", crate::verif::V::S("constraints")),
+          ("keys", crate::verif::V::S(&keys.join(","))),
+        ],
+      );
+    }
     for (var_id, candidate) in &self.single_matched {
       if let Some(m) = var_matchers.get(var_id) {
         if m.match_node_with_env(candidate.clone(), &mut env).is_none() {
